@@ -31,6 +31,7 @@ type RC struct {
 	kindCache map[string][]string
 	epochCl   map[*FuncInfo]bool
 	builderCl map[*FuncInfo]bool
+	troles    *timerRoles
 }
 
 var apiNames = []string{"Start", "Reset", "OnReceive", "OnTimeout", "OnTransaction", "OnNewTransaction"}
